@@ -823,6 +823,12 @@ void fp_inv_sim(fp_t *c, const fp_t *a, int n) {
 
 	fp_null(u);
 
+	if (n <= 0) {
+		/* Nothing to invert. */
+		RLC_FREE(t);
+		return;
+	}
+
 	if (t != NULL) {
 		for (i = 0; i < n; i++) {
 			fp_null(t[i]);
